@@ -444,6 +444,8 @@ class Exec:
             raise OutOfSubset("generator function")
         allargs = ([self_val] if self_val is not None else []) + list(args)
         con = self.registry.get(fi.qualname) if self.registry else None
+        if con is not None and getattr(con, "inline_only", False) and fi.qualname != self.top_qual_inline_root:
+            con = None          # this contract pins the function itself; callers keep reading its body
         if con is not None and fi.qualname != self.top_qual_inline_root:
             return self.call_contract(fi, con, allargs, kwargs)
         if fi.qualname == self.top_qual_inline_root and len(self.frames) > 0 and con is not None:
